@@ -430,7 +430,10 @@ fn pubsub_scenario(seed: u64, log: &mut Vec<String>) -> Result<(), (String, &'st
                     pubs[p].0.push(Ok(v));
                 }
                 log.push(format!("subscriber {i} is not ready; publisher {p} sends 2 messages"));
-                ex.run().map_err(spin)?;
+                // (half of the time the channel is closed before the router has seen these messages at all)
+                if r.below(2) == 0 {
+                    ex.run().map_err(spin)?;
+                }
             }
         }
         log.push("the registration channel is closed while traffic is in flight; then every subscriber accepts data".into());
@@ -814,19 +817,31 @@ fn reqrep_scenario(seed: u64, log: &mut Vec<String>) -> Result<(), (String, &'st
     // the bound replier failing makes room for the next one (C10), and the router survives it (C08)
     if r.below(2) == 0 {
         log.push("the bound replier's connection fails; a new replier registers; a requestor sends a request".into());
+        let (sh, s) = SinkH::new();
+        let (th, t) = StreamH::new();
+        let _ = tx.try_send(reqrep::Socket::Client((s, t)));
+        ex.run().map_err(spin)?;
+        if r.below(2) == 0 {
+            // a request is written to the bound replier but not flushed yet when its connection fails: it was handed over once and
+            // must not be handed to the next replier as well
+            log.push("a request is written to the bound replier, whose flush is still pending when its connection fails".into());
+            bound.sink.stall_flush();
+            th.push(Ok(Frame::Message(MessagePayload { headers: None, message: Bytes::from_static(b"before-failover") })));
+            ex.run().map_err(spin)?;
+            // the write side fails first (the flush reports it); the read side ends afterwards
+            bound.sink.break_it();
+            ex.run().map_err(spin)?;
+        }
         bound.sink.break_it();
         bound.stream.end();
         ex.run().map_err(spin)?;
         let mut second = new_replier(&mut tx);
-        let (sh, s) = SinkH::new();
-        let (th, t) = StreamH::new();
-        let _ = tx.try_send(reqrep::Socket::Client((s, t)));
         let mut seen2 = Vec::new();
         pump(&mut ex, &mut second, &mut seen2)?;
         th.push(Ok(Frame::Message(MessagePayload { headers: None, message: Bytes::from_static(b"after-failover") })));
         pump(&mut ex, &mut second, &mut seen2)?;
         if seen2.len() != 1 {
-            return Err((format!("after the bound replier failed a new one registered, but it saw {} of the 1 request sent afterwards", seen2.len()), "C10"));
+            return Err((format!("after the bound replier failed a new one registered, but it saw {} request(s) where exactly the 1 sent afterwards was due (a request already written to the failed replier must not be handed over again)", seen2.len()), "C10 C02"));
         }
         let got = sh.0.lock().unwrap().got.len();
         if got != 1 {
